@@ -330,7 +330,81 @@ fn cell_lengths(rng: &mut Rng, cap: usize, prev_cap: Option<usize>, how_many: us
 }
 
 /// C01 / C02 / C06: every (version, level) cell, modes and masks forced or automatic.
+/// `pushbits <v> <bits:len;…> => <len> <hex of the first len/8 + 3 bytes>` (len 1000 = push_u8, 1001 = fill)
+pub fn pushbits_line(v: usize, script: &[(usize, usize)]) -> String {
+    let toks: Vec<String> = script.iter().map(|(b, l)| format!("{:x}:{}", b, l)).collect();
+    let head = format!("pushbits {} {} => ", v, if toks.is_empty() { "-".to_string() } else { toks.join(";") });
+    let sc = script.to_vec();
+    match std::panic::catch_unwind(move || h::compact_script(version_of(v), &sc)) {
+        Ok((len, data)) => {
+            let keep = (len / 8 + 3).min(data.len());
+            format!("{}{} {} {}", head, len, data.len(), hex(&data[..keep]))
+        }
+        Err(e) => format!("{}trap {}", head, panic_msg(e)),
+    }
+}
+
+fn gen_pushbits(out: &mut Out, rng: &mut Rng, thorough: bool) {
+    // every (len % 8, width 0..=64) x {zero, all ones, random, random wider than the width}
+    for r in 0..8usize {
+        for w in 0..=64usize {
+            for kind in 0..4usize {
+                let mut script: Vec<(usize, usize)> = Vec::new();
+                // a random prefix leaving len % 8 == r
+                let pre = rng.below(4);
+                for _ in 0..pre {
+                    let l = rng.range(1, 20);
+                    script.push((rng.next() as usize, l));
+                }
+                let cur: usize = script.iter().map(|x| x.1).sum();
+                let need = (8 + r - cur % 8) % 8;
+                if need > 0 {
+                    script.push((rng.next() as usize, need));
+                }
+                let bits = match kind {
+                    0 => 0usize,
+                    1 => usize::MAX,
+                    2 => {
+                        if w == 0 { 0 } else if w == 64 { rng.next() as usize } else { (rng.next() as usize) & ((1usize << w) - 1) }
+                    }
+                    _ => rng.next() as usize,
+                };
+                script.push((bits, w));
+                if rng.chance(1, 2) {
+                    script.push((rng.next() as usize, rng.range(1, 12)));
+                }
+                out.job(move || pushbits_line(0, &script));
+            }
+        }
+    }
+    for _ in 0..(if thorough { 100_000 } else { 1500 }) {
+        let n = rng.range(1, 12);
+        let mut script = Vec::new();
+        for _ in 0..n {
+            match rng.below(10) {
+                0 => script.push((rng.byte() as usize, 1000)),
+                _ => script.push((rng.next() as usize, *rng.pick(&[4usize, 10, 7, 11, 6, 8, 9, 12, 13, 14, 16, 1, 2, 3, 5]))),
+            }
+        }
+        if rng.chance(1, 6) {
+            let cur: usize = script.iter().map(|x| if x.1 == 1000 { 8 } else { x.1 }).sum();
+            let need = (8 - cur % 8) % 8;
+            if need > 0 {
+                script.push((0, need));
+            }
+            script.push((0, 1001));
+        }
+        out.job(move || pushbits_line(rng_version(n), &script));
+    }
+}
+fn rng_version(n: usize) -> usize {
+    [0usize, 0, 1, 2][n % 4]
+}
+
 fn gen_cells(out: &mut Out, rng: &mut Rng, thorough: bool, prop: &str) {
+    if prop == "C06" {
+        gen_pushbits(out, rng, thorough);
+    }
     let caps = caps();
     for v in 0..40usize {
         for e in 0..4usize {
